@@ -177,12 +177,29 @@ def parse(text: str, want=None, newline_passthrough: bool = True) -> Outcome:
     """Chart.from_file on a StringIO (newline='' so CR LF reach the parser as written)."""
     env.LOG.drain()
     fp = io.StringIO(text, newline="") if newline_passthrough else io.StringIO(text)
-    if newline_passthrough and len(text) % 7 in (1, 4):
-        # "a file object": besides StringIO, a text wrapper over bytes (what open() returns) and a minimal object that only has
-        # read() — the same characters reach the parser in all three
+    _tmp = None
+    if newline_passthrough and len(text) % 7 in (1, 4, 5, 6):
+        # "a file object": besides StringIO, a text wrapper over bytes (what open() returns), a minimal object that only has
+        # read(), a stream the caller has already read a banner line from (parsing starts where the caller left the stream, as
+        # json.load and csv.reader do), and an anonymous temporary file (its .name is a file descriptor number, not a path) —
+        # the same characters reach the parser in all of them
         try:
+            k = len(text) % 7
             raw = text.encode("utf-8")
-            fp = io.TextIOWrapper(io.BytesIO(raw), encoding="utf-8", newline="") if len(text) % 7 == 1 else _ReadOnly(text)
+            if k == 1:
+                fp = io.TextIOWrapper(io.BytesIO(raw), encoding="utf-8", newline="")
+            elif k == 4:
+                fp = _ReadOnly(text)
+            elif k == 5:
+                banner = "# exported by a tool; the chart follows\n"
+                fp = io.StringIO(banner + text, newline="")
+                fp.readline()
+            elif len(text) < 60000:
+                import tempfile
+
+                _tmp = fp = tempfile.TemporaryFile("w+", encoding="utf-8", newline="")
+                fp.write(text)
+                fp.seek(0)
         except UnicodeEncodeError:
             pass
     # (the form is a function of the input, so that a replay of a recorded case takes the same form)
@@ -199,6 +216,12 @@ def parse(text: str, want=None, newline_passthrough: bool = True) -> Outcome:
         return Outcome(c, None, env.LOG.drain())
     except Exception as e:  # noqa: BLE001 - the outcome is data for the oracle
         return Outcome(None, e, env.LOG.drain())
+    finally:
+        if _tmp is not None:
+            try:
+                _tmp.close()
+            except Exception:  # noqa
+                pass
 
 
 _OTHER = None
